@@ -85,6 +85,9 @@ type Exec struct {
 	loopOrd  map[*ssa.BasicBlock]int
 	oldEnv   *Env
 	unrollK  int
+	loops    map[*ssa.BasicBlock]*loopInfo
+	doneBlk  map[*ssa.BasicBlock]bool
+	boundedBy []string
 }
 
 type closureVal struct {
@@ -124,16 +127,36 @@ func (e *Exec) merge(es []edge) *State {
 			out.hist = new(big.Int).Or(out.hist, ed.st.hist)
 		}
 	}
-	for _, ed := range es {
-		for k, v := range ed.st.regs {
-			out.regs[k] = v
-		}
-	}
 	pcs := make([]string, len(es))
 	out.pc = "false"
 	for i, ed := range es {
 		pcs[i] = c.and(ed.st.pc, ed.cond)
 		out.pc = c.or(out.pc, pcs[i])
+	}
+	// registers: normally every incoming state agrees (SSA dominance); after loop
+	// unrolling the same instruction may carry different values on different edges
+	for i, ed := range es {
+		for k, v := range ed.st.regs {
+			old, have := out.regs[k]
+			if !have || len(old) != len(v) || v == nil {
+				out.regs[k] = v
+				continue
+			}
+			same := true
+			for j := range v {
+				if v[j] != old[j] {
+					same = false
+				}
+			}
+			if same {
+				continue
+			}
+			m := make(Val, len(v))
+			for j := range v {
+				m[j] = c.ite("Int", pcs[i], v[j], old[j])
+			}
+			out.regs[k] = m
+		}
 	}
 	pick := func(sort string, get func(*State) string) string {
 		r := get(es[len(es)-1].st)
